@@ -727,3 +727,12 @@ def family_constructors(E, L):
         except ValueError:
             E.prove('%s.refuses_coincident%s' % (nm, len(args)), True)
     E.canary('family.constructors.canary', a == 1)
+
+# ----------------------------------------------------------------------------
+# callee contracts this property's proofs ASSUME are part of this check (modular verification carries the property only if the assumed contract is itself
+# discharged on the same tree): the groups of the property that establishes them run here as well, reported under this property when they fail.
+# the crystal-family predicates read the cell's lengths and angles; Box.py and vect_angle.py are among this property's files
+from . import c01 as _c01
+for _g in _c01.GROUPS:
+    if _g.name in ('vect_angle', 'Box.angles', 'Box.abc_volume'):
+        GROUPS.append(_g)
